@@ -63,7 +63,7 @@ theorem Il.nil_nil {l : List Nat} (h : Il [] [] l) : l = [] := by
 theorem Il.left_sublist {a b l : List Nat} (h : Il a b l) : a.Sublist l := by
   induction h with
   | nil => exact List.Sublist.slnil
-  | left _ ih => exact ih.cons₂ _
+  | left _ ih => exact ih.cons_cons _
   | right _ ih => exact ih.cons _
 
 theorem Il.length {a b l : List Nat} (h : Il a b l) : l.length = a.length + b.length := by
@@ -245,22 +245,18 @@ theorem trySend_log (c : Conn) (ov : Bool) (ch q : Nat) :
           · simp [h2] at h1
           · rfl
         by_cases h3 : (c.used.set ch true).getD old false = true
-        · have hr : r = ({ c with used := (c.used.set ch true).set old false, gDelivered := c.gDelivered ++ [q],
-              sub := rest ++ [(ch, q)], gEvicted := c.gEvicted ++ [oseq] }, .ok (some old)) := by
+        · have hr : r = ({ c with used := (c.used.set ch true).set old false, gDelivered := c.gDelivered ++ [q], sub := rest ++ [(ch, q)], gEvicted := c.gEvicted ++ [oseq] }, .ok (some old)) := by
             show c.trySend ov ch q = _
             unfold Conn.trySend; rw [if_neg h1]; simp only; rw [if_pos h2]; simp only [hsub]; rw [if_pos h3]
-          refine ⟨old, oseq, rest, rfl, ?_, hov, hsub ▸ h2, ?_⟩
           rw [hr]
-          refine ⟨Or.inl rfl, rfl, rfl, rfl, rfl, fun _ => ⟨h3, rfl⟩, fun h => by cases h⟩
-          simp [hr]
-        · have hr : r = ({ c with used := c.used.set ch true, gDelivered := c.gDelivered ++ [q],
-              sub := rest ++ [(ch, q)], gEvicted := c.gEvicted ++ [oseq] }, .corrupted) := by
+          exact ⟨old, oseq, rest, rfl, Or.inl rfl, hov, hsub ▸ h2, rfl, rfl, rfl, rfl, fun _ => ⟨h3, rfl⟩,
+            fun h => SendRes.noConfusion h⟩
+        · have hr : r = ({ c with used := c.used.set ch true, gDelivered := c.gDelivered ++ [q], sub := rest ++ [(ch, q)], gEvicted := c.gEvicted ++ [oseq] }, .corrupted) := by
             show c.trySend ov ch q = _
             unfold Conn.trySend; rw [if_neg h1]; simp only; rw [if_pos h2]; simp only [hsub]; rw [if_neg h3]
-          refine ⟨old, oseq, rest, rfl, ?_, hov, hsub ▸ h2, ?_⟩
-          · rw [hr]; exact Or.inr rfl
           rw [hr]
-          refine ⟨rfl, rfl, rfl, rfl, fun h => by cases h, fun _ => by simpa using h3⟩
+          exact ⟨old, oseq, rest, rfl, Or.inr rfl, hov, hsub ▸ h2, rfl, rfl, rfl, rfl,
+            fun h => SendRes.noConfusion h, fun _ => by simpa using h3⟩
     · left
       have hr : r = ({ c with used := c.used.set ch true, gDelivered := c.gDelivered ++ [q], sub := c.sub ++ [(ch, q)] }, .ok none) := by
         show c.trySend ov ch q = _
@@ -274,12 +270,10 @@ theorem ConnLog.trySend {ov : Bool} {c : Conn} (h : ConnLog ov c) (ch q : Nat) :
   have hrecv := trySend_gReceived c ov ch q
   rcases trySend_log c ov ch q with ⟨_, hov, hfull, heq⟩ | ⟨_, hsub, hdel, hev, hsk, hlt, _⟩ |
       ⟨old, oseq, rest, hsub0, _, hov, hfull, hsub, hdel, hev, hsk, _, _⟩
-  · simp only at heq
-    rw [heq]
+  · rw [heq]
     refine ⟨⟨l, hl1, hl2⟩, a, ?_, c1, c2, c3⟩
     intro h; rw [hov] at h; cases h
-  · simp only at hsub hdel hev hsk
-    have hp : pend (c.trySend ov ch q).1 = pend c ++ [q] := by simp [pend, hsub]
+  · have hp : pend (c.trySend ov ch q).1 = pend c ++ [q] := by simp [pend, hsub]
     refine ⟨⟨l, ?_, ?_⟩, ?_, ?_, ?_, ?_, ?_⟩
     · rw [hrecv, hev]; exact hl1
     · rw [hdel, hp, hl2, List.append_assoc]
@@ -296,8 +290,7 @@ theorem ConnLog.trySend {ov : Bool} {c : Conn} (h : ConnLog ov c) (ch q : Nat) :
       rcases hlt with hlt | hnil
       · simp [pend] at this; omega
       · simp [pend, hnil] at this ⊢; omega
-  · simp only at hsub hdel hev hsk
-    have hp0 : pend c = oseq :: rest.map (·.2) := by simp [pend, hsub0]
+  · have hp0 : pend c = oseq :: rest.map (·.2) := by simp [pend, hsub0]
     have hp : pend (c.trySend ov ch q).1 = rest.map (·.2) ++ [q] := by simp [pend, hsub]
     have hlen : (pend c).length = c.cap := by
       have : (pend c).length = c.sub.length := by simp [pend]
